@@ -1,5 +1,6 @@
 from __future__ import annotations
 
+from dataclasses import replace
 from typing import Optional
 
 from excel2pycl.src.cell import Cell
@@ -15,6 +16,7 @@ class Parser:
         Simplified model of interaction with the translator.
         """
         self._safety_check: bool = True
+        self._safety_check_has_been_changed: bool = True
         self._translation: Optional[str] = None
         self._entrypoint_cell: Optional[Cell] = None
         self._entrypoint_cell_has_been_changed: bool = True
@@ -29,6 +31,7 @@ class Parser:
         Returns:
             Parser.
         """
+        self._safety_check_has_been_changed = self._safety_check_has_been_changed or not self._safety_check
         self._safety_check = True
         return self
 
@@ -39,6 +42,7 @@ class Parser:
         Returns:
             Parser.
         """
+        self._safety_check_has_been_changed = self._safety_check_has_been_changed or self._safety_check
         self._safety_check = False
         return self
 
@@ -67,6 +71,7 @@ class Parser:
             Parser.
         """
         self._entrypoint_cell = cell
+        self._entrypoint_cell_has_been_changed = True
         return self
 
     def _translate(self) -> Parser:
@@ -81,7 +86,8 @@ class Parser:
             E2PyclSafetyException: If security check is enabled and suspicious fragments are found,
                 an exception will be thrown.
         """
-        if not self._excel_file_path_has_been_changed and not self._entrypoint_cell_has_been_changed:
+        if not self._excel_file_path_has_been_changed and not self._entrypoint_cell_has_been_changed \
+                and not self._safety_check_has_been_changed:
             return self
 
         if not self._excel_file_path:
@@ -96,7 +102,9 @@ class Parser:
         context._sheets_size = excel.get_sheets_size()
 
         if self._entrypoint_cell:
-            CellTranslator.translate(self._entrypoint_cell, excel, context)
+            # translate a copy: resolving the identifiers binds a cell to the titles of one workbook,
+            # and the caller's cell must stay usable after the file path has been changed
+            CellTranslator.translate(replace(self._entrypoint_cell), excel, context)
         else:
             CellTranslator.translate_file(excel, context)
 
@@ -104,6 +112,7 @@ class Parser:
 
         self._excel_file_path_has_been_changed = False
         self._entrypoint_cell_has_been_changed = False
+        self._safety_check_has_been_changed = False
 
         return self
 
